@@ -97,6 +97,9 @@ func Origins(v ssa.Value, o *OriginOpts) []ssa.Value {
 					return
 				}
 				add(v)
+			case *ssa.FreeVar:
+				// a captured variable of the enclosing function
+				add(a)
 			default:
 				add(v)
 			}
